@@ -106,6 +106,13 @@ def mk_bin(op, l, r):
     # list algebra used by frame builders
     if op == "+" and l[0] == "list" and r[0] == "list":
         return ("list", l[1] + r[1])
+    if op == "+" and (_listish(l) and _listish(r)) and (l[0] in ("list", "cat", "pad", "rep") or r[0] in ("list", "cat", "pad", "rep")):
+        # X + [c] * (K - len(X))  ==  X padded with c to K
+        if r[0] == "rep" and r[1][0] == "list" and len(r[1][1]) == 1:
+            n = r[2]
+            if n[0] == "bin" and n[1] == "-" and n[3] == ("call", ("glob", "len"), (l,), ()):
+                return ("pad", l, n[2], r[1][1][0])
+        return cat(l, r)
     if op == "*" and l[0] == "list" and is_const(r) and isinstance(r[1], int) and 0 <= r[1] <= 4096:
         return ("list", l[1] * r[1])
     if op == "*" and r[0] == "list" and is_const(l) and isinstance(l[1], int) and 0 <= l[1] <= 4096:
@@ -135,6 +142,11 @@ def mk_bin(op, l, r):
             out = ("bin", op, out, x)
         return out
     return ("bin", op, l, r)
+
+
+def _listish(x):
+    return x[0] in ("list", "cat", "pad", "rep") or (x[0] == "sub" and x[2][0] == "slice") or \
+        (x[0] == "call" and x[1] in (("glob", "list"), ("glob", "bytearray"), ("glob", "bytes")))
 
 
 def _flat(op, x):
@@ -523,8 +535,8 @@ class SymEval:
                 return ("c", len(a[1]))
         if f == ("glob", "int") and len(args) == 1 and is_const(args[0]) and isinstance(args[0][1], (int, float)):
             return ("c", int(args[0][1]))
-        if f == ("glob", "list") and len(args) == 1 and args[0][0] == "list":
-            return args[0]
+        if f == ("glob", "list") and len(args) == 1 and (args[0][0] in ("list", "cat", "pad") or (args[0][0] == "sub" and args[0][2][0] == "slice")):
+            return args[0]   # a copy of a fresh list / slice: same value
         # x.to_bytes(n, 'little') with constant n: the n little-endian bytes of x
         if f[0] == "attr" and f[2] == "to_bytes":
             kw = dict(kwargs)
